@@ -313,6 +313,54 @@ def loop_header(fn, kinds=("WhileStmt", "ForStmt", "DoStmt", "CXXForRangeStmt"))
     return out
 
 
+def paths_through(fn, n):
+    """Feasible acyclic entry-to-exit paths that evaluate node n."""
+    bid = fn.cfg.block_for(n)
+    return [p for p in enumerate_paths(fn) if bid in p.blocks]
+
+
+def facts_at(fn, n):
+    """Must-facts before node n, path-sensitively where that is sound: the facts of the forward must-analysis
+    (facts.MustFacts) plus, in a function without loops, the atoms that every *feasible* path through n has
+    established before n and not invalidated since (a join of an infeasible path does not lose them)."""
+    from .facts import MustFacts
+    mf = MustFacts(fn)
+    base = list(mf.at(n))
+    if loop_header(fn):
+        return base
+    cfg = fn.cfg
+    target = cfg.block_for(n)
+    if target is None:
+        return base
+    first = None
+    if n["id"] in cfg.block_of:
+        first = n["id"]
+    else:
+        for d in walk(n):
+            if d["id"] in cfg.block_of and cfg.block_of[d["id"]] == target:
+                if first is None or cfg.pos_of[d["id"]] < cfg.pos_of[first]:
+                    first = d["id"]
+    common = None
+    for p in enumerate_paths(fn):
+        if target not in p.blocks:
+            continue
+        cur = {}
+        for i, b in enumerate(p.blocks):
+            if b == target:
+                cur = mf._block_transfer(b, cur, upto=first)
+                break
+            cur = mf._block_transfer(b, cur)
+            if cfg.is_cond_branch(b) and i + 1 < len(p.blocks):
+                leaf = cfg.branch_leaf(b)
+                ss = cfg.succ[b]
+                if leaf is not None and len(ss) == 2 and ss[0] != ss[1] and p.blocks[i + 1] in ss:
+                    for a in conjuncts(leaf, ss.index(p.blocks[i + 1]) == 0, fn):
+                        cur[mf._fact_key(a)] = a
+        common = cur if common is None else {k: v for k, v in common.items() if k in cur}
+    have = {mf._fact_key(a) for a in base}
+    return base + [v for k, v in (common or {}).items() if k not in have]
+
+
 class Row:
     """One way a function produces its result: branch atoms accumulated along the path (through
     callees whose result is returned unchanged) and the final return statement."""
